@@ -279,7 +279,7 @@ pub fn inst_strategy(kind: Kind) -> BoxedStrategy<Inst> {
             .prop_map(|(dim, kind, (lo, hi))| Inst::Real { dim, kind, lo, hi })
             .boxed(),
         Kind::Bits => (1usize..9).prop_map(|dim| Inst::Bits { dim }).boxed(),
-        Kind::Perm => (3usize..9, 0u8..5, 0u64..1000).prop_map(|(n, kind, seed)| Inst::Tsp { n, kind, seed }).boxed(),
+        Kind::Perm => (3usize..9, 0u8..7, 0u64..1000).prop_map(|(n, kind, seed)| Inst::Tsp { n, kind, seed }).boxed(),
     }
 }
 
